@@ -536,6 +536,18 @@ pub fn check_cli(case: &CfgCase, w: usize, side: Side) -> CheckResult {
             for g in run_groups(&doc).map_err(|e| Violation::new("c03.output", e))? {
                 judge_groups(cfg, &g, &expect, "run (changed targets)")?;
             }
+            // explicitly named targets with --deps: still their whole dependency closure, whatever
+            // the checkpoint says has changed
+            if !case.visible.is_empty() {
+                let o = env.mr(&deps_argv);
+                let Some(doc) = o.json().filter(|_| o.ok()) else {
+                    return viol_obs("c03.cli.rejected", "`run -t --deps` with a checkpoint failed on an acyclic configuration".into(), o.brief());
+                };
+                let closure = model::closure(&adj, &roots);
+                for g in run_groups(&doc).map_err(|e| Violation::new("c03.output", e))? {
+                    judge_groups(cfg, &g, &closure, "run -t --deps (checkpoint present)")?;
+                }
+            }
             info.nontrivial = edges > 0;
             info = info.class_if(!created.is_empty() && !expect.is_empty() && expect.len() < n, "pruned");
         }
